@@ -24,7 +24,8 @@ type Cfg struct {
 	FlipY  bool
 	GP     bool // general position: every lattice point is moved by a hash-derived fraction
 	GPSalt uint64
-	Scale  int // lattice step (1 default)
+	Scale  int  // lattice step (1 default)
+	Big    bool // three times as many vertices per ring / line (stress stream)
 }
 
 type G struct {
@@ -101,6 +102,14 @@ func (c Cfg) XY(ix, iy int) (float64, float64) {
 }
 
 type ip struct{ x, y int }
+
+// sz draws a vertex count; Big configurations get up to three times as many.
+func (g *G) sz(lo, hi int) int {
+	if g.Cfg.Big {
+		hi *= 3
+	}
+	return g.R.Range(lo, hi)
+}
 
 func (g *G) rp() ip { return ip{g.R.Intn(g.Cfg.Side + 1), g.R.Intn(g.Cfg.Side + 1)} }
 
@@ -419,11 +428,11 @@ func (g *G) Polygon() geom.Polygon {
 		var rs [][]ip
 		switch g.R.Intn(6) {
 		case 0, 1:
-			if r := g.ringConvex(g.R.Range(3, 7)); r != nil {
+			if r := g.ringConvex(g.sz(3, 7)); r != nil {
 				rs = [][]ip{r}
 			}
 		case 2:
-			if r := g.ringStar(g.R.Range(4, 8)); r != nil {
+			if r := g.ringStar(g.sz(4, 8)); r != nil {
 				rs = [][]ip{r}
 			}
 		case 3:
@@ -431,9 +440,9 @@ func (g *G) Polygon() geom.Polygon {
 		default: // shell with explicit holes
 			var shell []ip
 			if g.R.Bool() {
-				shell = g.ringConvex(g.R.Range(4, 8))
+				shell = g.ringConvex(g.sz(4, 8))
 			} else {
-				shell = g.ringStar(g.R.Range(5, 8))
+				shell = g.ringStar(g.sz(5, 8))
 			}
 			if shell == nil {
 				continue
@@ -519,7 +528,7 @@ func (g *G) holeIn(rs [][]ip) []ip {
 // LineString returns a valid non-empty linestring (lattice walk).
 func (g *G) LineString() geom.LineString {
 	for tries := 0; tries < 50; tries++ {
-		n := g.R.Range(2, 6)
+		n := g.sz(2, 6)
 		var ps []ip
 		if g.Cfg.Side <= 16 {
 			ps = g.pickPts(n)
